@@ -259,7 +259,10 @@ def rand_leaf(rnd, flavour, classes=None, assertions=False):
     if rnd.random() < 0.3:
         items.append((rnd.choice(classes), 1, 1))
     if assertions and rnd.random() < 0.4:
-        # a regex terminal is matched against its own text: what precedes it in the input must not matter
+        # a regex terminal is matched against its own text: what precedes it in the input must not matter.  The match is
+        # made non-empty: for an empty match \\b / \\B look at the character that FOLLOWS the terminal in the input (the
+        # scanner matches against the rest of the input), which no context-free reading of the grammar can express
+        items[0] = (items[0][0], max(1, items[0][1]), items[0][2])
         return regex(items, pre=rnd.choice([1, 2, 3, 3, 4]), pre_set=rnd.choice(classes))
     return regex(items)
 
